@@ -31,13 +31,15 @@ class Mem:
       self.write(addr, n, data & ((1 << (8 * n)) - 1))
       return (typ, opq, 0, 0, 0)
     if typ in AMOS:
-      if n != 4: raise ValueError("sub-word AMO is outside the model")
-      old = self.read(addr, 4)
-      a = data & M32
-      new = {AMO_ADD: (old + a) & M32, AMO_AND: old & a, AMO_OR: old | a, AMO_SWAP: a, AMO_XOR: old ^ a,
-             AMO_MIN: old if _s32(old) < _s32(a) else a, AMO_MAX: old if _s32(old) > _s32(a) else a,
+      # the operation acts on the n addressed bytes: operand = low n bytes of the data field, signedness taken at that width
+      M = (1 << (8 * n)) - 1
+      sg = lambda x: x - (M + 1) if x >> (8 * n - 1) else x
+      old = self.read(addr, n)
+      a = data & M
+      new = {AMO_ADD: (old + a) & M, AMO_AND: old & a, AMO_OR: old | a, AMO_SWAP: a, AMO_XOR: old ^ a,
+             AMO_MIN: old if sg(old) < sg(a) else a, AMO_MAX: old if sg(old) > sg(a) else a,
              AMO_MINU: min(old, a), AMO_MAXU: max(old, a)}[typ]
-      self.write(addr, 4, new)
+      self.write(addr, n, new)
       return (typ, opq, 0, ln, old)
     raise KeyError(typ)
 
